@@ -39,9 +39,12 @@ DProps == << Prop("b", "b", FALSE, Mk("Integer", [default |-> JInt(1)])),
 
 (* class F(C, minProperties=0): pass  -- a subclass that declares no property of its own *)
 FKw == [minProperties |-> 0]
-Targets == {"E", "C", "D", "F"}
+(* an element that starts with an EMPTY property dictionary *)
+N0 == Mk("Element", [properties |-> <<>>])
+Targets == {"E", "C", "D", "F", "N"}
 Children == {"D", "F"}
 Init == /\ heap = [x \in Targets |-> IF x = "E" THEN E0 ELSE IF x = "C" THEN C0
+                                     ELSE IF x = "N" THEN N0
                                      ELSE IF x = "D" THEN Merge(C0, "D", DKw, DProps)
                                      ELSE Merge(C0, "F", FKw, <<>>)]
         /\ hist = <<>>
